@@ -271,12 +271,19 @@ CLAIMS['C04'] = dict(category='proof', ref='5 Core A, 8 C04',
     note='Trusted: Lean kernel; axioms propext/Classical.choice/Quot.sound only; Go harness + line protocol + fact extractor; Go runtime semantics assumed by the model (see evidence.assumptions)')
 
 CLAIMS['C12'] = dict(category='proof', ref='8 C12', text=_CLIENT_TEXT % (
-    "Theorems (32, all histories / all reachable states): PUBREC answered by exactly PUBREL (C12_pubrec_pubrel); QoS 0 completes in the sending step "
+    "Theorems (40, all histories / all reachable states): PUBREC answered by exactly PUBREL (C12_pubrec_pubrel); QoS 0 completes in the sending step "
     "(C12_qos0_completes_at_once); per-queue conservation and exactly-once FIFO completion (C12_queue_conservation, C12_exactly_once_fifo), a terminal ack "
     "fires exactly the longest terminal prefix, never before a request's own terminal ack, eagerly (C12_completion_timing, C12_completion_no_later, "
     "C12_terminal_only_by_own_ack, C12_release_eager); pings, any number outstanding: every completion exactly once in call order, the n-th PINGRESP "
-    "completes the n-th Ping (C12_ping_exactly_once_fifo, C12_ping_completion_timing, C12_two_pings_both_complete); identifiers in flight pairwise distinct in every reachable state and non-zero (C12_inflight_ids_distinct, "
-    "C12_identifier_nonzero_iff/_partial); refinement of the reference client event by event on admitted histories (C12_refines_spec_partial/_step) with closed "
+    "completes the n-th Ping (C12_ping_exactly_once_fifo, C12_ping_completion_timing, C12_two_pings_both_complete); identifiers: the client model assigns as message.nextPacketID does since repair A2 "
+    "(0 skipped, counter +2 at the wrap; tied by correspondence episodes that start the process-wide counter just before a 16-bit wrap, also at 2^64-1, with requests in flight): no event in no state writes a request "
+    "with identifier 0 and identifiers in flight are non-zero, no counter hypothesis (C12_identifier_nonzero, C12_identifier_nonzero_call, C12_inflight_ids_nonzero, C12_next_identifier, C12_written_identifier); "
+    "exactly-once FIFO completion now covers library-assigned identifiers (hypothesis FreshA, weaker than Fresh: C12_fresh_implies_freshA); pairwise distinct: within each ack queue always (C12_queue_ids_distinct, because "
+    "Wait drops a duplicate registration); for the requests as written, over all four queues of the connection, a call keeps the identifiers in flight pairwise distinct and gets registered IFF the identifier it writes "
+    "is not in flight (C12_distinct_step_iff, C12_clear_step), which holds along every history - other connections drawing from the process-wide counter in between - in which caller-supplied identifiers are not in flight, "
+    "library-assigned ones are not caller-supplied ones in flight, and fewer than 65535 identifiers are drawn process-wide while a library-numbered request stays in flight (C12_inflight_ids_distinct_partial, C12_window_in_draws); "
+    "the unrestricted claim is false of the code - the counter is a blind 16-bit cycle - with closed counterexamples (C12_inflight_ids_distinct_counterexample: caller-supplied 1 then library-assigned 1, second completion never fires; "
+    "one request in flight across 65535 draws); refinement of the reference client event by event on admitted histories (C12_refines_spec_partial/_step) with closed "
     "counterexamples showing every excluded class is needed (E5 early ack, B3, late PUBREC, SUBACK code, auto id); several outstanding pings and "
     "overlapping filters within one Subscribe request are admitted (C12_refines_spec_pings, C12_refines_spec_overlapping_filters; the single ping slot and "
     "E9 - one callback invocation per matching filter - were repaired, their witnesses are regression cases). Known finding E5 is "
